@@ -447,3 +447,77 @@ Proof.
   split; [reflexivity|]. split; [reflexivity|]. split; [reflexivity|].
   vm_compute. repeat split; reflexivity.
 Qed.
+
+(* every premise of C06_tree_read_atomic and of C06_tree_write_atomic holds on this trace for register 2, two
+   decoder levels down: the theorems are applied, not recomputed *)
+Ltac fx_setup m h l Em Eh El Em' Eh' El' :=
+  destruct (csr_map fx_tree) as [m|] eqn:Em; [|vm_compute in Em; discriminate];
+  destruct (csr_hw fx_tree) as [h|] eqn:Eh; [|vm_compute in Eh; discriminate];
+  destruct (all_resources m) as [l|] eqn:El;
+    [|vm_compute in Em; injection Em as <-; vm_compute in El; discriminate];
+  pose proof Em as Em'; pose proof Eh as Eh'; pose proof El as El';
+  vm_compute in Em; injection Em as <-; vm_compute in Eh; injection Eh as <-;
+  vm_compute in El; injection El as <-.
+
+Ltac fx_pick_reg h L r :=
+  let v := eval vm_compute in (hw_leaves 5 h) in
+  match v with [_; ?LB] => pose (L := LB) end;
+  let w := eval vm_compute in (Mux.c_regs (hl_cfg L)) in
+  match w with [?r0] => pose (r := r0) end.
+
+Example C06_tree_read_atomic_instance :
+  exists m h l, csr_map fx_tree = Ok m /\ csr_hw fx_tree = Ok h /\ all_resources m = Ok l /\
+    rdata_after h fx_tr 2 = Mux.word 8 12 1 (trunc 12 0xABC).
+Proof.
+  destruct C06_flat_nonvacuous_dom as (Hd & Hw & Hrange).
+  fx_setup m h l Em Eh El Em' Eh' El'.
+  eexists _, _, _. split; [exact Em'|]. split; [exact Eh'|]. split; [exact El'|].
+  match type of El' with _ = Ok [_; _; ?i2] => pose (i := i2) end.
+  match type of Eh' with _ = Ok ?hh => fx_pick_reg hh L r end.
+  match type of El' with _ = Ok ?ll => assert (Hi : In i ll) by (right; right; left; reflexivity) end.
+  match type of Eh' with _ = Ok ?hh => assert (Hreg : reg_at (csr_aw fx_tree) hh i L 0%nat r) end.
+  { split; [vm_compute; right; left; reflexivity|]. split.
+    - repeat split; try (vm_compute; reflexivity); vm_compute; intro; discriminate.
+    - split; vm_compute; reflexivity. }
+  refine (C06_tree_read_atomic fx_tree _ _ _ Hd Hw Em' Eh' El' i L 0%nat r fx_tr 0%nat 1%nat 1 _ _ _ _
+            Hi Hreg eq_refl Hrange eq_refl eq_refl eq_refl (le_S _ _ (le_n _)) _ eq_refl eq_refl eq_refl _).
+  - intros u bu rvu i' Hu Hn Hs Hi'. assert (u = 1)%nat by lia. subst u. cbn in Hn. injection Hn as <- <-.
+    cbn [In] in Hi'. destruct Hi' as [<-|[<-|[<-|[]]]]; cbn; lia.
+  - cbn. lia.
+Qed.
+
+Definition fx_tj (j : Z) : nat := if j =? 0 then 2%nat else 4%nat.
+Definition fx_dj (j : Z) : Z := if j =? 0 then 0x34 else 0x5.
+
+Example C06_tree_write_atomic_instance :
+  exists m h l, csr_map fx_tree = Ok m /\ csr_hw fx_tree = Ok h /\ all_resources m = Ok l /\
+    exists rd los lo, nth_error (csr_run h (cinit h) fx_tr) 5 = Some (rd, los) /\ In lo los /\
+      lo_id lo = 2 /\ lo_wstb lo = true /\ lo_wdata lo = assemble 8 12 fx_dj 2 /\ assemble 8 12 fx_dj 2 = 0x534.
+Proof.
+  destruct C06_flat_nonvacuous_dom as (Hd & Hw & Hrange).
+  fx_setup m h l Em Eh El Em' Eh' El'.
+  eexists _, _, _. split; [exact Em'|]. split; [exact Eh'|]. split; [exact El'|].
+  match type of El' with _ = Ok [_; _; ?i2] => pose (i := i2) end.
+  match type of Eh' with _ = Ok ?hh => fx_pick_reg hh L r end.
+  match type of El' with _ = Ok ?ll => assert (Hi : In i ll) by (right; right; left; reflexivity) end.
+  match type of Eh' with _ = Ok ?hh => assert (Hreg : reg_at (csr_aw fx_tree) hh i L 0%nat r) end.
+  { split; [vm_compute; right; left; reflexivity|]. split.
+    - repeat split; try (vm_compute; reflexivity); vm_compute; intro; discriminate.
+    - split; vm_compute; reflexivity. }
+  destruct (C06_tree_write_atomic fx_tree _ _ _ Hd Hw Em' Eh' El' i L 0%nat r fx_tr 4%nat _ _ fx_tj fx_dj
+              Hi Hreg eq_refl Hrange eq_refl eq_refl eq_refl) with (b' := fx_bus 9 true true 0xFF) (rv' := [0; 0; 0])
+    as (rd & los & lo & H1 & H2 & H3 & H4 & H5).
+  - intros j Hj _. cbn [i i_start i_end] in Hj. assert (Ej : j = 0 \/ j = 1) by lia.
+    destruct Ej as [-> | ->]; (split; [cbn; lia|split]).
+    + eexists _, _. split; [reflexivity|]. vm_compute. auto.
+    + intros u bu rvu Hu Hn. cbn in Hu. assert (Eu : (u = 3 \/ u = 4)%nat) by lia.
+      destruct Eu as [-> | ->]; cbn in Hn; injection Hn as <- <-; cbn; intros [? ?]; discriminate.
+    + eexists _, _. split; [reflexivity|]. vm_compute. auto.
+    + intros u bu rvu Hu. cbn in Hu. lia.
+  - intros j u bu rvu i' Hj _ Hu Hn Hs Hi' Hin. cbn [i i_start i_end] in Hj |- *.
+    assert (Ej : j = 0 \/ j = 1) by lia. destruct Ej as [-> | ->]; cbn in Hu; [|lia].
+    assert (Eu : (u = 3 \/ u = 4)%nat) by lia.
+    destruct Eu as [-> | ->]; cbn in Hn; injection Hn as <- <-; cbn in Hs |- *; [discriminate|lia].
+  - reflexivity.
+  - exists rd, los, lo. repeat split; auto.
+Qed.
